@@ -8,6 +8,13 @@ sticky error of a `bufio.Writer`; nil-pointer panics.
 Operation indices count the operations that reach the OS (open, write, sync, close,
 remove, rename), starting at 0 with NewSnapshotter's open; the operation with index
 `fault` is not performed and returns an error.
+
+Since e2c64f9 compact() keeps the CLOSED old handles in place until the new ones are
+installed: after a failed remove / rename / reopen nothing is nil; writes through the
+stale writer reach the closed file and fail for real ("file already closed"), a second
+Close is an ignored error, and a remove of the already removed snapshot fails for real.
+`nilOnSwap := true` is the code before that fix (handles set to nil first), kept for the
+regression witness.
 -/
 import SerfModel.Model.Snapshot
 namespace SerfModel.SnapshotFault
@@ -31,21 +38,32 @@ structure FSnap where
   panicked : Bool := false
   /-- operations actually performed, in order -/
   done : List FsOp := []
-  /-- all operations issued, with their outcome -/
+  /-- all operations issued; `false` = the injected fault (operations that fail for real —
+  on a closed handle, remove of a missing file — are logged `true`: the shim sees them as issued) -/
   log : List (FsOp × Bool) := []
+  /-- the code before e2c64f9: compact() sets the handles to nil before remove/rename/reopen -/
+  nilOnSwap : Bool := false
+  /-- `s.fh` is a closed file (compact() closed it and has not installed a new one) -/
+  fhClosed : Bool := false
+  /-- the snapshot file exists in the directory -/
+  mainExists : Bool := true
   deriving Repr, Inhabited
 
-/-- issue one OS operation: performed unless it is the faulty one -/
-def doOp (st : FSnap) (op : FsOp) : FSnap × Bool :=
+/-- issue one OS operation: not performed if it is the faulty one; `works = false`: it is
+issued but fails for real (closed handle, missing file) -/
+def doOpW (st : FSnap) (op : FsOp) (works : Bool) : FSnap × Bool :=
   if st.fault = some st.nops then ({ st with nops := st.nops + 1, failed := some op, log := st.log ++ [(op, false)] }, false)
-  else ({ st with nops := st.nops + 1, done := st.done ++ [op], log := st.log ++ [(op, true)] }, true)
+  else if works then ({ st with nops := st.nops + 1, done := st.done ++ [op], log := st.log ++ [(op, true)] }, true)
+  else ({ st with nops := st.nops + 1, log := st.log ++ [(op, true)] }, false)
+
+def doOp (st : FSnap) (op : FsOp) : FSnap × Bool := doOpW st op true
 
 /-- successive writes to `p`; stops at the first failure -/
-def doWrites (st : FSnap) (p : Path) : List Bytes → FSnap × Bool
+def doWrites (st : FSnap) (p : Path) (works : Bool) : List Bytes → FSnap × Bool
   | [] => (st, true)
   | w :: ws =>
-    let r := doOp st (.write p w)
-    if r.2 then doWrites r.1 p ws else (r.1, false)
+    let r := doOpW st (.write p w) works
+    if r.2 then doWrites r.1 p works ws else (r.1, false)
 
 inductive Res where
   | ok | err | panic
@@ -57,7 +75,7 @@ def fAppendBytes (st : FSnap) (l : Bytes) : FSnap × Res :=
   else if st.sticky then (st, .err)
   else
     let w := bufWrite st.s.buf l
-    let r := doWrites st .main w.2
+    let r := doWrites st .main (!st.fhClosed) w.2
     if !r.2 then ({ r.1 with sticky := true }, .err)
     else
       let st1 := { r.1 with s := { r.1.s with buf := w.1 } }
@@ -65,7 +83,7 @@ def fAppendBytes (st : FSnap) (l : Bytes) : FSnap × Res :=
         let st2 := { st1 with s := { st1.s with flushDue := false } }
         if st2.s.buf = [] then ({ st2 with s := { st2.s with offset := st2.s.offset + l.length } }, .ok)
         else
-          let r2 := doOp st2 (.write .main st2.s.buf)
+          let r2 := doOpW st2 (.write .main st2.s.buf) (!st2.fhClosed)
           if !r2.2 then ({ r2.1 with sticky := true }, .err)
           else ({ r2.1 with s := { r2.1.s with buf := [], offset := r2.1.s.offset + l.length } }, .ok)
       else ({ st1 with s := { st1.s with offset := st1.s.offset + l.length } }, .ok)
@@ -75,7 +93,7 @@ def fCompactFront (st : FSnap) (lines : List Bytes) : FSnap × Bool :=
   let r1 := doOp st (.openTrunc .tmp)
   if !r1.2 then (r1.1, false) else
   let w := bufWriteAll [] lines
-  let r2 := doWrites r1.1 .tmp w.2
+  let r2 := doWrites r1.1 .tmp true w.2
   if !r2.2 then ((doOp r2.1 (.close .tmp)).1, false) else        -- WriteString error: fh.Close(); return
   let r3 := if w.1 = [] then (r2.1, true) else doOp r2.1 (.write .tmp w.1)   -- buf.Flush()
   if !r3.2 then (r3.1, false) else
@@ -83,25 +101,38 @@ def fCompactFront (st : FSnap) (lines : List Bytes) : FSnap × Bool :=
   if !r4.2 then ((doOp r4.1 (.close .tmp)).1, false) else
   ((doOp r4.1 (.close .tmp)).1, true)                            -- fh.Close(), result ignored
 
-/-- `compact()`, second half: drop the old handles, remove, rename, reopen -/
-def fCompactSwap (st : FSnap) (total : Nat) : FSnap × Res :=
-  -- `_ = s.buffered.Flush(); s.buffered = nil`
-  if !st.writer then ({ st with panicked := true }, .panic) else
-  let r6 := if st.sticky || st.s.buf = [] then st else (doOp st (.write .main st.s.buf)).1
-  let r6 := { r6 with writer := false, sticky := false }
-  -- `s.fh.Close(); s.fh = nil`  ((*os.File)(nil).Close() is an error, not a panic)
-  let r7 := if r6.fh then (doOp r6 (.close .main)).1 else r6
-  let r7 := { r7 with fh := false }
-  let r8 := doOp r7 (.remove .main)
+/-- `_ = s.buffered.Flush()` in compact(): the result is ignored, a failure leaves the bufio error -/
+def fOldFlush (st : FSnap) : FSnap :=
+  if st.sticky || st.s.buf = [] then st
+  else
+    let r := doOpW st (.write .main st.s.buf) (!st.fhClosed)
+    if r.2 then { r.1 with s := { r.1.s with buf := [] } } else { r.1 with sticky := true }
+
+/-- `s.fh.Close()` in compact() (a second Close of a closed file is an ignored error);
+before e2c64f9 (`nil = true`) the two handles were also set to nil here -/
+def fOldClose (nil : Bool) (st : FSnap) : FSnap :=
+  let r7 : FSnap := if st.fh then (doOp st (.close .main)).1 else st
+  if nil then { r7 with writer := false, sticky := false, fh := false } else { r7 with fhClosed := true }
+
+/-- remove, rename, reopen, install the new handles -/
+def fSwapTail (r7 : FSnap) (total : Nat) : FSnap × Res :=
+  let r8 := doOpW r7 (.remove .main) r7.mainExists
   if !r8.2 then (r8.1, .err) else
-  let r9 := doOp r8.1 (.rename .tmp .main)
+  let r8' : FSnap := { r8.1 with mainExists := false }
+  let r9 := doOp r8' (.rename .tmp .main)
   if !r9.2 then (r9.1, .err) else
-  let r10 := doOp r9.1 (.openAppend .main)
+  let r9' : FSnap := { r9.1 with mainExists := true }
+  let r10 := doOp r9' (.openAppend .main)
   if !r10.2 then (r10.1, .err) else
   let r11 := r10.1
   let s1 : Snap := r11.s
   let s' : Snap := { s1 with buf := [], offset := total, flushDue := false, ncompact := s1.ncompact + 1, block := s1.alive }
-  ({ r11 with writer := true, sticky := false, fh := true, s := s' }, .ok)
+  ({ r11 with writer := true, sticky := false, fh := true, fhClosed := false, s := s' }, .ok)
+
+/-- `compact()`, second half: flush and close the old handles, remove, rename, reopen -/
+def fCompactSwap (st : FSnap) (total : Nat) : FSnap × Res :=
+  if !st.writer then ({ st with panicked := true }, .panic) else
+  fSwapTail (fOldClose st.nilOnSwap (fOldFlush st)) total
 
 /-- `compact()` -/
 def fCompact (st : FSnap) : FSnap × Res :=
@@ -150,7 +181,7 @@ def fFlush (st : FSnap) : FSnap :=
   else if !st.writer then { st with panicked := true }
   else if st.sticky || st.s.buf = [] then st
   else
-    let r := doOp st (.write .main st.s.buf)
+    let r := doOpW st (.write .main st.s.buf) (!st.fhClosed)
     if r.2 then { r.1 with s := { r.1.s with buf := [] } } else { r.1 with sticky := true }
 
 /-- the in-memory effect of a leave -/
@@ -199,11 +230,12 @@ def fShutdown (st : FSnap) (clk : Nat) : FSnap :=
   if r.fh then (doOp r (.close .main)).1 else r
 
 /-- NewSnapshotter on a fresh directory (its own open is operation 0 and is not faulted here) -/
-def fInit (rj : Bool) (mc : Nat) (fault : Option Nat) : FSnap :=
-  { s := (Snap.init rj mc).1, nops := 1, fault := fault, done := [.openAppend .main], log := [(.openAppend .main, true)] }
+def fInit (rj : Bool) (mc : Nat) (fault : Option Nat) (nilOnSwap : Bool := false) : FSnap :=
+  { s := (Snap.init rj mc).1, nops := 1, fault := fault, done := [.openAppend .main], log := [(.openAppend .main, true)],
+    nilOnSwap := nilOnSwap }
 
-def fLife (rj : Bool) (mc : Nat) (fault : Option Nat) (evs : List FEv) (clk : Nat) : FSnap :=
-  fShutdown (fRun (fInit rj mc fault) evs) clk
+def fLife (rj : Bool) (mc : Nat) (fault : Option Nat) (evs : List FEv) (clk : Nat) (nilOnSwap : Bool := false) : FSnap :=
+  fShutdown (fRun (fInit rj mc fault nilOnSwap) evs) clk
 
 /-- the faults after which the handles are nil: compact()'s remove, rename, reopen -/
 def badFault : Option FsOp → Bool
